@@ -35,6 +35,9 @@ pub enum Strategy {
     Uniform,
     /// PCT: random priorities, `d` priority change points
     Pct,
+    /// Starvation: threads whose role is the victim (0 = hashing thread, 1 = main/feeder, 2 = workers) run
+    /// only when no other thread is enabled; uniform choice inside the preferred set
+    Starve(u8),
 }
 
 /// How a scheduled run ended abnormally.
@@ -109,6 +112,13 @@ impl State {
             Strategy::Pct => {
                 let best = cands.iter().max_by_key(|c| (c.2, std::cmp::Reverse(c.0))).unwrap();
                 Some(best.1)
+            }
+            Strategy::Starve(victim) => {
+                let vrole = ["Hasher", "main", "Worker"][(victim % 3) as usize];
+                let preferred: Vec<ThreadId> = cands.iter().filter(|c| self.threads.get(&c.1).map_or(true, |t| t.role != vrole)).map(|c| c.1).collect();
+                let pool: Vec<ThreadId> = if preferred.is_empty() { cands.iter().map(|c| c.1).collect() } else { preferred };
+                let k = (self.rnd() % pool.len() as u64) as usize;
+                Some(pool[k])
             }
         }
     }
